@@ -231,6 +231,11 @@ def Tbs.pre (t : Tbs) : List Tlv :=
 
 def Tbs.fields (t : Tbs) : List Tlv := t.pre ++ optList (t.exts.map extsField)
 
+def Tbs.withExts (t : Tbs) (es : List Ext) : Tbs := { t with exts := some es }
+
+/-- `x` inserted so that it ends up at position `i` (at the end when `i` is beyond the list) -/
+def insertAt (es : List Ext) (i : Nat) (x : Ext) : List Ext := es.take i ++ x :: es.drop i
+
 def marshalTbs (t : Tbs) : Bytes := encTlv ⟨[0x30], concatTlvs t.fields⟩
 
 def optAll {α} (p : α → Bool) : Option α → Bool
@@ -287,6 +292,9 @@ def parseTbs (bs : Bytes) : Option Tbs :=
 /-! ### `removeExtension` -/
 
 def hasOid (oid : Bytes) (es : List Ext) : Bool := es.any (fun e => e.oid == oid)
+
+/-- number of extensions carrying `oid` (specification side; the code is `removeOne`) -/
+def countOid (oid : Bytes) (es : List Ext) : Nat := (es.filter (fun e => e.oid == oid)).length
 
 /-- the loop of `removeExtension`: the single extension with `oid` is deleted; `none` if there is none or a second one -/
 def removeOne (oid : Bytes) : List Ext → Option (List Ext)
@@ -376,20 +384,26 @@ def buildPrecertTBS (bs : Bytes) (p : Option PreIssuer) : Option Bytes :=
       | none => some data          -- `tbs.Raw` still holds `data`: the marshaller copies it
       | some p => if p.ctEku then some (marshalTbs (preIssuerEdit p t)) else none
 
-/-! ### the two leaf routes (serialization.go) — the TBS that goes into the `PreCert` entry and the chain
-position of the certificate whose SubjectPublicKeyInfo is hashed into `issuer_key_hash` -/
+/-! ### the two leaf routes (serialization.go): the TBSCertificate that goes into the `PreCert` entry, and the
+SubjectPublicKeyInfo that is hashed into `issuer_key_hash` (`rest` = the SubjectPublicKeyInfos of `chain[1:]`) -/
 
-/-- `MerkleTreeLeafFromChain(chain, PrecertLogEntryType, _)`: `chain[1]` is described by `pre` when it carries the
-CT EKU (`IsPreIssuer`), `chainLen` is `len(chain)` -/
-def leafFromPrecertChain (tbs : Bytes) (chainLen : Nat) (pre : Option PreIssuer) : Option (Bytes × Nat) :=
-  if chainLen < 2 then none
-  else match pre with
-    | none => (buildPrecertTBS tbs none).map (·, 1)
-    | some p => if chainLen < 3 then none else (buildPrecertTBS tbs (some p)).map (·, 2)
+/-- `MerkleTreeLeafFromChain(chain, PrecertLogEntryType, _)`; `pre` describes `chain[1]` when it carries the CT EKU (`IsPreIssuer`) -/
+def leafFromPrecertChain (tbs : Bytes) (rest : List Bytes) (pre : Option PreIssuer) : Option (Bytes × Bytes) :=
+  match rest with
+  | [] => none
+  | k1 :: rest' =>
+    match pre with
+    | none => (buildPrecertTBS tbs none).map (·, k1)
+    | some p =>
+      match rest' with
+      | [] => none
+      | k2 :: _ => (buildPrecertTBS tbs (some p)).map (·, k2)
 
 /-- `MerkleTreeLeafForEmbeddedSCT(chain, _)` -/
-def leafForEmbeddedSCT (tbs : Bytes) (chainLen : Nat) : Option (Bytes × Nat) :=
-  if chainLen < 2 then none else (removeExt sctOid tbs).map (·, 1)
+def leafForEmbeddedSCT (tbs : Bytes) (rest : List Bytes) : Option (Bytes × Bytes) :=
+  match rest with
+  | [] => none
+  | k1 :: _ => (removeExt sctOid tbs).map (·, k1)
 
 /-! ### the SCT list extension value: `OCTET STRING { SignedCertificateTimestampList }`, RFC 6962 §3.3 -/
 
@@ -416,24 +430,20 @@ def marshalSctList (lim : SctLimits) (l : List Bytes) : Option Bytes :=
 def parseSctItemsF (lim : SctLimits) : Nat → Bytes → Option (List Bytes)
   | _, [] => some []
   | 0, _ :: _ => none
-  | f + 1, bs =>
-    if bs.length < 2 then none
-    else
-      let n := beDec (bs.take 2)
-      if n < lim.itemMin ∨ lim.itemMax < n then none
-      else if (bs.drop 2).length < n then none
-      else match parseSctItemsF lim f ((bs.drop 2).drop n) with
-        | none => none
-        | some r => some ((bs.drop 2).take n :: r)
+  | f + 1, b0 :: bs0 =>
+    if (b0 :: bs0).length < 2 then none
+    else if beDec ((b0 :: bs0).take 2) < lim.itemMin ∨ lim.itemMax < beDec ((b0 :: bs0).take 2) then none
+    else if ((b0 :: bs0).drop 2).length < beDec ((b0 :: bs0).take 2) then none
+    else match parseSctItemsF lim f (((b0 :: bs0).drop 2).drop (beDec ((b0 :: bs0).take 2))) with
+      | none => none
+      | some r => some (((b0 :: bs0).drop 2).take (beDec ((b0 :: bs0).take 2)) :: r)
 
 /-- `tls.Unmarshal(raw, &SCTList)` with no trailing data -/
 def parseSctList (lim : SctLimits) (bs : Bytes) : Option (List Bytes) :=
   if bs.length < 2 then none
-  else
-    let n := beDec (bs.take 2)
-    if n < lim.listMin ∨ lim.listMax < n then none
-    else if (bs.drop 2).length ≠ n then none
-    else parseSctItemsF lim n (bs.drop 2)
+  else if beDec (bs.take 2) < lim.listMin ∨ lim.listMax < beDec (bs.take 2) then none
+  else if (bs.drop 2).length ≠ beDec (bs.take 2) then none
+  else parseSctItemsF lim (beDec (bs.take 2)) (bs.drop 2)
 
 /-- `ASN1MarshalSCTs`: the extension value -/
 def sctExtValue (lim : SctLimits) (l : List Bytes) : Option Bytes :=
